@@ -24,7 +24,7 @@ BUILDER_RULES = ["omit", "rename", "merge_into", "compose", "properties", "dupli
 OPTION_RULES = ["omit", "rename", "rename_arguments", "array_to_append", "map_to_index", "unfold_boolean", "struct_fields_as_arguments",
                 "struct_fields_as_options", "disjunction_as_options", "duplicate", "add_assignment", "add_comments"]
 ALL_RULES = ["builder." + r for r in BUILDER_RULES] + ["option." + r for r in OPTION_RULES]
-WT = {"Path", "ArgDeclared"}
+WT = {"Path", "ArgDeclared", "ValueType"}
 
 
 def rule_name(r):
